@@ -357,14 +357,13 @@ def tobool_z3(x):
 
 
 def mk_int(e):
-    e = z3.simplify(e)
+    # no simplification here (the z3 Python API makes it the dominant cost); decide()/prove() simplify
     if z3.is_int_value(e):
         return e.as_long()
     return SInt(e)
 
 
 def mk_bool(e):
-    e = z3.simplify(e)
     if z3.is_true(e):
         return True
     if z3.is_false(e):
